@@ -155,6 +155,42 @@ def _k_map(c) -> CaseInfo:
         for r, nm in ((z.at_leniently(ldt), "at_leniently"), (ldt.in_zone_leniently(z), "in_zone_leniently")):
             need(Z.ns(r.to_instant()) == L - b[3] * SEC, f"{nm}/gap-instant", f"{zid} L={L}: {Z.ns(r.to_instant())} != {L - b[3] * SEC}")
             need(r.offset.seconds == a[3] and pyo.ldt_total(r.local_date_time) == L + (a[3] - b[3]) * SEC and r.calendar is cal and r.zone is z, f"{nm}/gap-shift", f"{zid} L={L}")
+    # every other stock resolver, through both spellings (zone.resolve_local / ldt.in_zone)
+    from pyoda_time.time_zones import Resolvers
+
+    amb = {"return_earlier": Resolvers.return_earlier, "return_later": Resolvers.return_later, "throw_when_ambiguous": Resolvers.throw_when_ambiguous}
+    skp = {
+        "return_end_of_interval_before": Resolvers.return_end_of_interval_before,
+        "return_start_of_interval_after": Resolvers.return_start_of_interval_after,
+        "return_forward_shifted": Resolvers.return_forward_shifted,
+        "throw_when_skipped": Resolvers.throw_when_skipped,
+    }
+    pick = (L // 7) % 3, (L // 11) % 4
+    combos = [(list(amb)[pick[0]], list(skp)[pick[1]])] if len(matches) == 1 else [(a_, s_) for a_ in amb for s_ in skp]
+    for an, sn in combos:
+        resolver = Resolvers.create_mapping_resolver(amb[an], skp[sn])
+        for call, cn in ((lambda: z.resolve_local(ldt, resolver), "resolve_local"), (lambda: ldt.in_zone(z, resolver), "in_zone")):
+            wh = f"{cn}({an},{sn})"
+            try:
+                r = call()
+            except AmbiguousTimeError:
+                need(len(matches) == 2 and an == "throw_when_ambiguous", f"{wh}/raised-ambiguous", f"{zid} L={L}")
+                continue
+            except SkippedTimeError:
+                need(len(matches) == 0 and sn == "throw_when_skipped", f"{wh}/raised-skipped", f"{zid} L={L}")
+                continue
+            need(r.zone is z and r.calendar is cal, f"{wh}/zone-calendar")
+            got = Z.ns(r.to_instant())
+            if len(matches) == 1:
+                exp_i = L - matches[0][3] * SEC
+            elif len(matches) == 2:
+                need(an != "throw_when_ambiguous", f"{wh}/ambiguous-not-raised", f"{zid} L={L}")
+                exp_i = L - (matches[0] if an == "return_earlier" else matches[1])[3] * SEC
+            else:
+                need(sn != "throw_when_skipped", f"{wh}/skipped-not-raised", f"{zid} L={L}")
+                exp_i = {"return_end_of_interval_before": b[1] - 1, "return_start_of_interval_after": a[0], "return_forward_shifted": L - b[3] * SEC}[sn]
+            need(got == exp_i, f"{wh}/instant", f"{zid} L={L}: {got} != {exp_i}")
+            need(r.offset.seconds == z.get_utc_offset(r.to_instant()).seconds, f"{wh}/offset")
     # explicit-offset constructor accepts exactly the matching offsets
     valid = {iv[3] for iv in matches}
     trial = set(valid) | {iv[3] for iv in ivs[i0:i1]} | {next(iter(valid), 0) + 3600, 0}
